@@ -155,7 +155,17 @@ macro_rules! common_methods {
             (self.as_ssz_bytes(), self.ssz_bytes_len())
         }
         fn to_json(&self) -> Option<serde_json::Value> {
-            serde_json::to_value(self).ok()
+            // Both serializer paths must agree: the in-memory `Value` serializer (exact-size
+            // hints are only capacities there) and the streaming text serializer (where a wrong
+            // length hint produces malformed JSON).
+            let direct = serde_json::to_value(self).ok()?;
+            let text = serde_json::to_string(self).ok()?;
+            let parsed: serde_json::Value = serde_json::from_str(&text).ok()?;
+            if parsed == direct {
+                Some(direct)
+            } else {
+                None
+            }
         }
         fn eq_dyn(&self, other: &dyn DynColl<T>) -> Option<bool> {
             other.as_any().downcast_ref::<Self>().map(|o| self == o)
@@ -330,9 +340,24 @@ impl<T: Elem, N: Len, U: Map<T>> Factory<T> for Cfg<T, N, U> {
         Vector::<T, N, U>::from_ssz_bytes(bytes).ok().map(bv)
     }
     fn serde_list(&self, json: serde_json::Value) -> Option<Boxed<T>> {
-        serde_json::from_value::<List<T, N, U>>(json).ok().map(bl)
+        // deserialize both from the in-memory value and from its text form; they must agree
+        let text = serde_json::to_string(&json).ok()?;
+        let a = serde_json::from_value::<List<T, N, U>>(json).ok();
+        let b = serde_json::from_str::<List<T, N, U>>(&text).ok();
+        match (a, b) {
+            (Some(x), Some(y)) if x == y => Some(bl(x)),
+            (None, None) => None,
+            _ => panic!("serde: value and text deserializers disagree"),
+        }
     }
     fn serde_vec(&self, json: serde_json::Value) -> Option<Boxed<T>> {
-        serde_json::from_value::<Vector<T, N, U>>(json).ok().map(bv)
+        let text = serde_json::to_string(&json).ok()?;
+        let a = serde_json::from_value::<Vector<T, N, U>>(json).ok();
+        let b = serde_json::from_str::<Vector<T, N, U>>(&text).ok();
+        match (a, b) {
+            (Some(x), Some(y)) if x == y => Some(bv(x)),
+            (None, None) => None,
+            _ => panic!("serde: value and text deserializers disagree"),
+        }
     }
 }
